@@ -17,6 +17,7 @@ import MechVerif.Driver.C17
 import MechVerif.Driver.C06
 import MechVerif.Driver.C10
 import MechVerif.Driver.C08
+import MechVerif.Driver.C09
 open MechVerif.Driver
 
 def dispatch (line : String) : String :=
@@ -41,6 +42,8 @@ def dispatch (line : String) : String :=
     | some "prog" => S06.runC06 fields obs
     | some "doc" => S10.runC10 fields obs
     | some "fmt" => S08.runC08 fields obs
+    | some "cur" => S09.runC09 fields obs
+    | some "parse" => S09.runC09 fields obs
     | some "sel" => S18.runC18 fields obs
     | some "conv" | some "reshape" | some "toset" => runC12 fields obs
     | some "crc" | some "dmg" | some "sweep" | some "rt" | some "instrs" => runC07 fields obs
